@@ -3,7 +3,7 @@
 From Coq Require Import ZArith String List Ascii Bool Permutation Sorting.Sorted.
 Import ListNotations.
 From FV.C04 Require Import Text Model Proofs Corr.
-From FV.C02 Require Import Model Proofs Corr.
+From FV.C02 Require Import Model Proofs ProofsSeries Corr.
 From FV.C02.gen Require Import ResCfg.
 
 (* the header skip constants the model uses are the ones of the tree under test *)
@@ -113,6 +113,50 @@ Section Statement.
     forall et n e types (f : row str),
       exists msg, read_dir V vparse false et true n e types [f] = Err msg.
   Proof. intros. eexists. reflexivity. Qed.
+
+  (* ---- time series: FrontISTRData.read_files on the files in ANY order ---- *)
+  (* read_directory(time_series=True) is read_files applied to the files sorted
+     by numeric step *)
+  Theorem C02_read_dir_sorts_then_reads :
+    forall ok et n e types (files : table str),
+      read_dir V vparse ok et true n e types files
+      = read_files_series V vparse ok et n e types (select_steps true files).
+  Proof. reflexivity. Qed.
+
+  (* whatever the order of the files handed to read_files: time_steps lists the
+     step numbers in that order, and every nodal / elemental series is the stack
+     of the single-step readings in that order -- variables, order and ids of
+     the first file; slice k = the k-th file's table of the variable with the
+     same name *)
+  Theorem C02_series_any_file_order :
+    forall ok et n e types (f1 : row str) (files : table str) steps nd ed,
+      ok = true \/ files <> [] ->
+      read_files_series V vparse ok et n e types (f1 :: files) = Ok (Series steps nd ed) ->
+      steps = map fst (f1 :: files)
+      /\ exists ps,
+           Forall2 (fun f p => parse_res V vparse n e types (snd f) = Ok p) (f1 :: files) ps
+           /\ is_stack_of V (map (p_nodal V) ps) nd
+           /\ is_stack_of V (map (elemental_tables V et) ps) ed.
+  Proof. intros. eapply read_files_series_spec; eassumption. Qed.
+
+  (* if every step lists the rows of a variable in the same id order, slice k
+     of the series with the series' ids re-attached IS the k-th single-step
+     table: every number of every step stays on its id *)
+  Theorem C02_series_rows_on_their_ids :
+    forall name (steps : list (list (str * table V))) ids fs,
+      frames_of V name steps fs ->
+      Forall (fun p => forall tb, assoc name p = Some tb -> map fst tb = ids) steps ->
+      Forall2 (fun p fr => assoc name p = Some (combine ids fr)) steps fs.
+  Proof. intros. eapply frames_rows_on_their_ids; eassumption. Qed.
+
+  (* for elemental variables that premise needs no assumption on the row order
+     of the files: the ids femio shows after re-binding are the same for any
+     two result tables listing the same element ids (e.g. permuted rows) *)
+  Theorem C02_elemental_ids_row_order_free :
+    forall et types (tb tb' : table V),
+      (forall i, In i (map fst tb) <-> In i (map fst tb')) ->
+      map fst (ea_table et (rebind V types tb)) = map fst (ea_table et (rebind V types tb')).
+  Proof. intros. apply elemental_ids_row_order_free. assumption. Qed.
 End Statement.
 
 (* every elemental value stays attached to the id it was written under,
@@ -149,5 +193,34 @@ Theorem C02_example :
   /\ map fst (select_steps true [(5%Z, [S "a"]); (10%Z, [S "b"]); (9%Z, [S "c"]); (100%Z, [])]) = [5%Z; 9%Z; 10%Z; 100%Z].
 Proof. vm_compute. repeat split. Qed.
 
+(* non-vacuity of the series theorems: two files handed over in the order
+   step 10, step 5, the elemental rows of the second in another order *)
+Definition ex_content2 : content str :=
+  Build_content
+    (Build_section [(S "DISPLACEMENT", 3); (S "NodalSTRESS", 6); (S "E1", 1)]
+       [(7%Z, map S ["1.1E+00"; "2.1E+00"; "-3.5E-01"; "4.0E+00"; "5.0E+00"; "6.0E+00"; "7.0E+00"; "8.0E+00"; "9.0E+00"; "1.0E+01"]);
+        (3%Z, map S ["0.5E+00"; "0.0E+00"; "0.0E+00"; "1.5E+00"; "2.5E+00"; "3.5E+00"; "4.5E+00"; "5.5E+00"; "6.5E+00"; "7.5E+00"])])
+    (Some (Build_section [(S "ElementalSTRAIN", 2)]
+       [(10%Z, map S ["1.2E+01"; "1.3E+01"]); (20%Z, map S ["2.2E+01"; "2.3E+01"]); (30%Z, map S ["3.2E+01"; "3.3E+01"])])).
+Definition ex_types : list (str * list Z) := [(S "tet", [30%Z; 10%Z]); (S "hex", [20%Z])].
+Theorem C02_example_series :
+  read_files_series str tparse true [S "tet"; S "hex"] 2 3 ex_types
+    [(10%Z, render_res str tprint ex_layout ex_content); (5%Z, render_res str tprint ex_layout ex_content2)]
+  = Ok (Series [10%Z; 5%Z]
+          [(S "DISPLACEMENT", ([7%Z; 3%Z], [[map S ["1.0E+00"; "2.0E+00"; "-3.5E-01"]; map S ["0.0E+00"; "0.0E+00"; "0.0E+00"]];
+                                             [map S ["1.1E+00"; "2.1E+00"; "-3.5E-01"]; map S ["0.5E+00"; "0.0E+00"; "0.0E+00"]]]));
+           (S "NodalSTRESS", ([7%Z; 3%Z], [[map S ["4.0E+00"; "5.0E+00"; "6.0E+00"; "7.0E+00"; "8.0E+00"; "9.0E+00"]; map S ["1.5E+00"; "2.5E+00"; "3.5E+00"; "4.5E+00"; "5.5E+00"; "6.5E+00"]];
+                                            [map S ["4.0E+00"; "5.0E+00"; "6.0E+00"; "7.0E+00"; "8.0E+00"; "9.0E+00"]; map S ["1.5E+00"; "2.5E+00"; "3.5E+00"; "4.5E+00"; "5.5E+00"; "6.5E+00"]]]));
+           (S "E1", ([7%Z; 3%Z], [[[S "1.0E+01"]; [S "7.5E+00"]]; [[S "1.0E+01"]; [S "7.5E+00"]]]))]
+          [(S "ElementalSTRAIN", ([10%Z; 20%Z; 30%Z],
+              [[map S ["1.0E+01"; "1.1E+01"]; map S ["2.0E+01"; "2.1E+01"]; map S ["3.0E+01"; "3.1E+01"]];
+               [map S ["1.2E+01"; "1.3E+01"]; map S ["2.2E+01"; "2.3E+01"]; map S ["3.2E+01"; "3.3E+01"]]]))])
+  /\ (ex_types <> [] /\ forall i, In i (map fst [(30%Z, [1]); (10%Z, [2]); (20%Z, [3])]) <-> In i (map fst [(10%Z, [4]); (20%Z, [5]); (30%Z, [6])])).
+Proof.
+  split; [vm_compute; reflexivity|]. split; [discriminate|]. intros i. simpl. tauto.
+Qed.
+
 Print Assumptions C02_res_roundtrip.
+Print Assumptions C02_series_any_file_order.
+Print Assumptions C02_elemental_ids_row_order_free.
 Print Assumptions C02_steps_sorted_stack.
